@@ -119,6 +119,15 @@ def _snapshot_globals(mods):
     return {"containers": snap, "mods": mods}
 
 
+def _clear_caches(W):
+    """lru_caches of the cache modules start empty in a new process."""
+    for m in list(W["globals0"]["mods"]) + [W["hed_schema_io"]]:
+        for name, v in list(vars(m).items()):
+            cc = getattr(v, "cache_clear", None)
+            if callable(cc) and not isinstance(v, type):
+                cc()
+
+
 def _reset_process_globals(W):
     g0 = W["globals0"]
     for m, name, obj, val in g0["containers"]:
@@ -142,6 +151,42 @@ def _reset_process_globals(W):
                     and m is not W["hed_schema_io"] and type(v) in (dict, list, set):
                 # a container that did not exist in the fresh module: created at run time, so drop its content
                 v.clear()
+
+
+class _PerProcessGlobals:
+    """Module-level containers of the cache modules are private to an OS process.  Simulated processes are threads of one
+    interpreter, so the scheduler swaps the content of every such container when the baton changes hands: a process
+    never sees what another one memoised (a stale listing kept by a loader is not refreshed by a populator's bookkeeping)."""
+
+    def __init__(self, W, sim):
+        import copy
+        self.copy = copy
+        self.items = W["globals0"]["containers"]
+        self.views = {}
+        self.current = None
+        sim.switch_in_hooks.append(self.switch_in)
+        sim.switch_out_hooks.append(self.switch_out)
+
+    @staticmethod
+    def _put(obj, val):
+        if type(obj) is list:
+            obj[:] = val
+        else:
+            obj.clear()
+            obj.update(val)
+
+    def switch_in(self, p):
+        if self.current == p.pid or not self.items:
+            return
+        view = self.views.get(p.pid)
+        for i, (m, name, obj, fresh) in enumerate(self.items):
+            self._put(obj, self.copy.deepcopy(fresh) if view is None else view[i])
+        self.current = p.pid
+
+    def switch_out(self, p):
+        if not self.items:
+            return
+        self.views[p.pid] = [self.copy.copy(obj) for (_, _, obj, _) in self.items]
 
 
 def _check_lock_stub_against_real(base):
@@ -174,6 +219,23 @@ def _check_lock_stub_against_real(base):
         raise RuntimeError("real flock contends across an unlinked lock file: stub model (per-inode locks) is wrong")
     d.release()
     a.release()
+    # shared locks share, and exclude exclusive ones (the stub models flags=LockFlags.SHARED the same way)
+    p2 = os.path.join(base, "real2.lock")
+    sh = portalocker.LockFlags.SHARED | portalocker.LockFlags.NON_BLOCKING
+    s1, s2 = portalocker.Lock(p2, timeout=0, flags=sh), portalocker.Lock(p2, timeout=0, flags=sh)
+    s1.acquire()
+    try:
+        s2.acquire()
+    except portalocker.exceptions.LockException:
+        raise RuntimeError("real portalocker does not let two SHARED locks coexist: stub model is wrong")
+    x = portalocker.Lock(p2, timeout=0)
+    try:
+        x.acquire()
+        raise RuntimeError("real portalocker gave an EXCLUSIVE lock while SHARED ones are held: stub model is wrong")
+    except portalocker.exceptions.LockException:
+        pass
+    s1.release()
+    s2.release()
 
 
 def version_of(fname):
@@ -591,12 +653,12 @@ def _actor(kind, args, W, sim, root, peer):
     cache = os.path.join(root, "cache")
     if kind == "populate":
         def populate():
-            _reset_process_globals(W)
+            _clear_caches(W)
             return ("populate", hc.cache_local_versions(cache))
         return populate
     if kind == "load":
         def load():
-            _reset_process_globals(W)
+            _clear_caches(W)
             from hed.errors.exceptions import HedFileError
             for attempt in range(int(args.get("retries", 0)) + 1):
                 W["attempt_seq"][sim.current().pid] = sim.record("load-attempt", None, attempt)
@@ -610,7 +672,7 @@ def _actor(kind, args, W, sim, root, peer):
         return load
     if kind == "refresh":
         def refresh():
-            _reset_process_globals(W)
+            _clear_caches(W)
             peer.up = bool(args.get("net"))
             n0 = len(peer.requests)
             r = hc.cache_xml_versions(cache_folder=cache)
@@ -647,6 +709,7 @@ def execute(sc, script=None):
     fs = SimFS(sim, [root], chunk=sc["chunk"], copy_bufsize=sc["bufsize"], permute_listing=sc["permute"],
                proxy_reads=sc["proxy_reads"], devices=(["tmp"] if sc.get("tmp_dev") else []))
     _reset_process_globals(W)
+    _PerProcessGlobals(W, sim)
     W["attempt_seq"] = {}
     lockworld = stubs.LockWorld(sim, rel=lambda p: fs_rel(fs, p))
     peer = stubs.Peer(sim, _peer_files(W, sc))
